@@ -361,25 +361,6 @@ func (p *PX) term(v ssa.Value, fr *pxFrame, st *pxState) *Term {
 				if t := p.tableLoad(ia, v.Type(), fr, st); t != nil {
 					return t
 				}
-				// element of an immutable package-level table of constants at an index decided on this path
-				if g, ok := ia.X.(*ssa.Global); ok {
-					if vals, ok := p.w.globalArrayConsts(g); ok {
-						it := p.term(ia.Index, fr, st)
-						var idx *big.Int
-						if it.K == TConst {
-							idx = it.C
-						} else if s, _ := p.evalTerm(it, st); s != nil && s.Card().Cmp(one) == 0 {
-							idx = s.Min()
-						}
-						if idx != nil && idx.IsInt64() && idx.Int64() >= 0 && idx.Int64() < int64(len(vals)) {
-							c := vals[idx.Int64()]
-							if b, isB := v.Type().Underlying().(*types.Basic); isB && b.Info()&types.IsBoolean != 0 {
-								return &Term{K: TBoolConst, Bool: c.Sign() != 0, T: v.Type(), key: fmt.Sprintf("%v", c.Sign() != 0)}
-							}
-							return &Term{K: TConst, C: c, T: v.Type(), key: c.String()}
-						}
-					}
-				}
 				// element of a symbolic byte sequence
 				if bs := p.byteSeqOf(ia.X, fr, st); bs != nil {
 					if it := p.term(ia.Index, fr, st); it.K == TConst && it.C.IsInt64() {
